@@ -114,6 +114,8 @@ def entailed_negation(rng):
 def with_assumptions(rng, clauses, kmax=3):
     vs = sorted({abs(l) for c in clauses for l in c})
     k = rng.randint(0, kmax)
+    if rng.random() < 0.08:
+        k = kmax + 2  # more literals than usual: repeats and contradictory pairs become likely
     out = []
     if not vs:
         return out
@@ -128,8 +130,8 @@ def with_assumptions(rng, clauses, kmax=3):
             lit = -rng.choice(units)  # contradict a unit clause
         else:
             lit = v if rng.random() < 0.5 else -v
-        if -lit in out:
-            continue
+        if -lit in out and rng.random() < 0.7:
+            continue  # (a contradictory pair x, -x is valid input too: the conjunction is then unsatisfiable)
         out.append(lit)
     return out
 
